@@ -169,6 +169,33 @@ func c16Shape(c *Ctx, prog *load.Program, name string) {
 		c.R.Unknown("C16-2", "shape/"+name+"@"+prog.Config.Name, pos, "len(scalars) not found")
 		return
 	}
+	// values equal to l = len(scalars): len of either input list (the length guard - rule multi/.../mismatch - makes
+	// them equal), len of a slice made with such a length
+	var equalL func(v ssa.Value, depth int) bool
+	equalL = func(v ssa.Value, depth int) bool {
+		if v == lenVal {
+			return true
+		}
+		call, ok := v.(*ssa.Call)
+		if !ok || depth > 4 {
+			return false
+		}
+		bi, isB := call.Common().Value.(*ssa.Builtin)
+		if !isB || bi.Name() != "len" {
+			return false
+		}
+		switch x := call.Common().Args[0].(type) {
+		case *ssa.Parameter:
+			return x == fn.Params[1] || x == fn.Params[2]
+		case *ssa.MakeSlice:
+			return equalL(x.Len, depth+1)
+		}
+		return false
+	}
+	isConst := func(v ssa.Value, k int64) bool {
+		c, ok := v.(*ssa.Const)
+		return ok && c.Value != nil && c.Int64() == k
+	}
 	loops, good := 0, true
 	detail := ""
 	for _, b := range fn.Blocks {
@@ -177,40 +204,46 @@ func c16Shape(c *Ctx, prog *load.Program, name string) {
 			continue
 		}
 		cmp, ok := ifi.Cond.(*ssa.BinOp)
-		if !ok || cmp.Y != lenVal || cmp.Op.String() != "<" {
+		if !ok || cmp.Op.String() != "<" || !equalL(cmp.Y, 0) {
 			continue
 		}
-		phi, ok := cmp.X.(*ssa.Phi)
-		if !ok {
+		// the index value is the left operand of the comparison: either the counter itself (`for j := 0; j < l; j++`:
+		// phi(0, phi+1)) or the incremented counter of a range loop (phi(-1, phi+1) with the test on phi+1)
+		idx := cmp.X
+		var phi *ssa.Phi
+		okPhi := false
+		switch x := idx.(type) {
+		case *ssa.Phi:
+			phi = x
+			if len(x.Edges) == 2 {
+				for i, e := range x.Edges {
+					if st, isB := x.Edges[1-i].(*ssa.BinOp); isB && isConst(e, 0) && st.Op.String() == "+" && st.X == ssa.Value(x) && isConst(st.Y, 1) {
+						okPhi = true
+					}
+				}
+			}
+		case *ssa.BinOp:
+			if p, isPhi := x.X.(*ssa.Phi); isPhi && x.Op.String() == "+" && isConst(x.Y, 1) && len(p.Edges) == 2 {
+				phi = p
+				for i, e := range p.Edges {
+					if isConst(e, -1) && p.Edges[1-i] == ssa.Value(x) {
+						okPhi = true
+					}
+				}
+			}
+		}
+		if phi == nil {
 			continue
 		}
 		loops++
-		okPhi := len(phi.Edges) == 2
-		if okPhi {
-			var init *ssa.Const
-			var step *ssa.BinOp
-			for _, e := range phi.Edges {
-				switch x := e.(type) {
-				case *ssa.Const:
-					init = x
-				case *ssa.BinOp:
-					step = x
-				}
-			}
-			okPhi = init != nil && init.Int64() == 0 && step != nil && step.Op.String() == "+" && step.X == ssa.Value(phi)
-			if okPhi {
-				k, isC := step.Y.(*ssa.Const)
-				okPhi = isC && k.Int64() == 1
-			}
-		}
 		if !okPhi {
 			good, detail = false, "a loop over the inputs does not run j = 0, 1, ..., l-1"
 		}
-		// every index expression using the loop counter inside the body indexes pTbls / sBytes / points / scalars with j itself
-		for _, r := range *phi.Referrers() {
+		// every index expression using the loop index inside the body indexes pTbls / sBytes / points / scalars with j itself
+		for _, r := range *idx.Referrers() {
 			switch x := r.(type) {
 			case *ssa.IndexAddr:
-				if x.Index != ssa.Value(phi) {
+				if x.Index != idx {
 					good, detail = false, "loop counter used in a derived index"
 				}
 			case *ssa.BinOp, *ssa.Phi, *ssa.DebugRef:
